@@ -2,6 +2,11 @@
 import MpirProofs.Lemmas.AllocSafeSetD
 import MpirProofs.Lemmas.AllocSafeMpqInv
 import MpirProofs.Lemmas.KernelsMem
+import MpirProofs.Lemmas.AliasMem
+import MpirProofs.Lemmas.Powm
+import MpirProofs.Lemmas.Gcd
+import MpirProofs.Lemmas.Bits
+import Mathlib.Data.Nat.GCD.Basic
 import Mpir.Model.AllocSafeMpz5
 namespace Mpir.AllocSafe5
 open Mpir Mpir.AllocSafe
@@ -424,5 +429,427 @@ theorem gcdTail_mem (s : St) (g : Nat) (G : List Nat) (gzl gzb : Nat) (hs : s.ok
       simp only [St.store, ptr_add_add]
       refine ⟨W4.ok, W4.bwf, ?_, fun x hx => (W4.frame x hx).trans (Gr.other x hx)⟩
       rw [W4.alloc]; simp; omega
+
+/-- the top limb mpn_lshift stores is at least `(top << cnt) mod B` -/
+theorem lshift_last (c x : Nat) : ∀ (xs : List Nat) (lo : Nat),
+    ∃ m, (Mpir.lshiftGo c (xs ++ [x]) lo).1.getLast? = some m ∧ (x <<< c) % B ≤ m := by
+  intro xs
+  induction xs with
+  | nil => intro lo; exact ⟨(x <<< c) % B ||| lo, by simp [Mpir.lshiftGo], Nat.left_le_or⟩
+  | cons y ys ih =>
+    intro lo
+    obtain ⟨m, hm, hle⟩ := ih (y >>> (64 - c))
+    refine ⟨m, ?_, hle⟩
+    simp only [List.cons_append, Mpir.lshiftGo]
+    have hne : (Mpir.lshiftGo c (ys ++ [x]) (y >>> (64 - c))).1 ≠ [] := by
+      intro h; rw [h] at hm; simp at hm
+    rw [List.getLast?_cons_of_ne_nil hne] <;> exact hm
+
+/-- the common ending: everything written, `SIZ (g) = gsize` -/
+theorem Wrote.fin_full {s s1 s2 : St} {g gsize : Nat} {R : List Nat} (Gr : Grown s s1 g gsize) (hg : OWF (s.h g))
+    (W : Wrote s1 s2 g R) (hlen : R.length = gsize) (hlast : R.getLast? ≠ some 0) :
+    Refines s (s2.setSize g (gsize : Nat)) g ⟨max (s.h g).buf.alloc gsize, (gsize : Nat), R⟩ ∧
+    Mpz.WF ⟨max (s.h g).buf.alloc gsize, (gsize : Nat), R⟩ := by
+  have ha : 1 ≤ (s.h g).buf.alloc := by have := hg.2.1; simpa [view] using this
+  have hal : (s1.h g).buf.alloc = max (s.h g).buf.alloc gsize := by
+    rw [Gr.alloc, grow_alloc_max _ _ (by simpa [view] using ha)]; simp [view]
+  have R1 := (W.setSize ((gsize : Nat) : Int)).refines ((gsize : Nat) : Int) (by simp) (by simp [hlen])
+  simp only [Int.natAbs_natCast, ← hlen, List.take_length] at R1
+  rw [hlen, hal] at R1
+  refine ⟨Refines.of_grown Gr R1, Nat.le_trans ha (Nat.le_max_left _ _), ?_, ?_, W.limbs, hlast⟩
+  · simp only [Int.natAbs_natCast]; exact Nat.le_max_right _ _
+  · simp only [Int.natAbs_natCast]; exact hlen
+
+theorem shl_top_ne_zero (x c : Nat) (hx : x ≠ 0) (hz : x >>> (64 - c) = 0) (hc : c ≤ 63) : (x <<< c) % B ≠ 0 := by
+  rw [Nat.shiftRight_eq_div_pow] at hz
+  have hlt : x < 2 ^ (64 - c) := by
+    rcases (Nat.div_eq_zero_iff).mp hz with h | h
+    · exact absurd h (by positivity)
+    · exact h
+  have hB : x * 2 ^ c < B := by
+    have : (2 : Nat) ^ (64 - c) * 2 ^ c = B := by rw [← Nat.pow_add]; unfold B; congr 1; omega
+    rw [← this]; exact Nat.mul_lt_mul_of_pos_right hlt (by positivity)
+  rw [Nat.shiftLeft_eq, Nat.mod_eq_of_lt hB]
+  exact Nat.mul_ne_zero hx (by positivity)
+
+theorem B_pow (k : Nat) : B ^ k = 2 ^ (64 * k) := by unfold B; rw [← Nat.pow_mul]
+
+/-- gcd.c:133-154 in full: the limbs written, well formed, and their value `G << (64 * g_zero_limbs + g_zero_bits)` -/
+theorem gcdTail_refines (s : St) (g : Nat) (G : List Nat) (gzl gzb : Nat) (hs : s.ok = true) (hg : OWF (s.h g))
+    (hG : Limbs G) (hN : G.getLast? ≠ some 0) (hne : G ≠ []) (hb : gzb ≤ 63) :
+    ∃ R, Refines s (gcdTail 0 false s g G gzl gzb) g ⟨max (s.h g).buf.alloc R.length, (R.length : Nat), R⟩ ∧
+      Mpz.WF ⟨max (s.h g).buf.alloc R.length, (R.length : Nat), R⟩ ∧ val R = val G * 2 ^ (64 * gzl + gzb) := by
+  unfold gcdTail
+  simp only [Nat.sub_zero, Bool.false_or]
+  by_cases h0 : gzb = 0
+  · subst h0
+    simp only [bne_self_eq_false, Bool.false_eq_true, if_false]
+    have Gr := MPZ_REALLOC_grown s g (G.length + gzl) hg
+    have hok1 : (MPZ_REALLOC s g (G.length + gzl)).ok = true := by rw [Gr.ok]; exact hs
+    have hb1 := Gr.bwf g hg.1
+    have hroom := Gr.room
+    generalize MPZ_REALLOC s g (G.length + gzl) = s1 at *
+    have W0 := Wrote.refl s1 g 0 hok1 hb1 (Nat.zero_le _)
+    have W1 := W0.wr 0 (List.replicate gzl 0) (Limbs_rep0 _) (by simp) (by simp; omega)
+    simp only [List.take_zero, add_zero_ptr, List.nil_append, List.drop_nil, List.append_nil] at W1
+    have W2 := W1.append G hG (by simp; omega)
+    simp only [List.length_replicate] at W2
+    simp only [MPN_ZERO, wr_PTR]
+    have hlen : (List.replicate gzl 0 ++ G).length = G.length + gzl := by simp; omega
+    obtain ⟨F1, F2⟩ := Wrote.fin_full Gr hg W2 hlen (by rw [List.getLast?_append_of_ne_nil _ hne]; exact hN)
+    refine ⟨_, by rw [hlen]; exact F1, by rw [hlen]; exact F2, ?_⟩
+    rw [val_append, Mpz.val_replicate_zero, List.length_replicate, B_pow, Nat.add_zero, Nat.zero_add, Nat.mul_comm]
+  · have hb0 : (gzb != 0) = true := by simpa using h0
+    simp only [hb0, if_true]
+    obtain ⟨hv, hclt, hl, hn⟩ := Mpz.K.lshift_val G gzb hG (by omega) hb
+    have hc := lshift_carry G gzb hne
+    obtain ⟨xs, x, hGx⟩ : ∃ xs x, G = xs ++ [x] := ⟨G.dropLast, G.getLast hne, (List.dropLast_append_getLast hne).symm⟩
+    have hx0 : x ≠ 0 := by
+      intro h; apply hN; rw [hGx, h]; simp
+    have htop : Mpz.topLimb G = x := by rw [hGx]; simp [Mpz.topLimb]
+    generalize hgs : G.length + gzl + (if (Mpz.topLimb G >>> (64 - gzb) != 0) = true then 1 else 0) = gsize
+    have Gr := MPZ_REALLOC_grown s g gsize hg
+    have hok1 : (MPZ_REALLOC s g gsize).ok = true := by rw [Gr.ok]; exact hs
+    have hb1 := Gr.bwf g hg.1
+    have hroom := Gr.room
+    generalize MPZ_REALLOC s g gsize = s1 at *
+    have W0 := Wrote.refl s1 g 0 hok1 hb1 (Nat.zero_le _)
+    have W1 := W0.wr 0 (List.replicate gzl 0) (Limbs_rep0 _) (by simp) (by simp; split at hgs <;> omega)
+    simp only [List.take_zero, add_zero_ptr, List.nil_append, List.drop_nil, List.append_nil] at W1
+    have W2 := W1.append (Mpir.lshift G gzb).1 hl (by simp [hn]; split at hgs <;> omega)
+    simp only [List.length_replicate] at W2
+    simp only [MPN_ZERO, wr_PTR]
+    have hne2 : (Mpir.lshift G gzb).1 ≠ [] := by
+      intro h; rw [h] at hn; simp at hn; exact hne (List.eq_nil_of_length_eq_zero hn.symm)
+    by_cases hcy : (Mpir.lshift G gzb).2 = 0
+    · have : ((Mpir.lshift G gzb).2 != 0) = false := by simpa using hcy
+      simp only [this, Bool.false_eq_true, if_false]
+      have hz : (Mpz.topLimb G >>> (64 - gzb) != 0) = false := by rw [← hc]; exact this
+      rw [hz] at hgs
+      simp only [Bool.false_eq_true, if_false, Nat.add_zero] at hgs
+      have hlen : (List.replicate gzl 0 ++ (Mpir.lshift G gzb).1).length = gsize := by simp [hn]; omega
+      have hlast : (List.replicate gzl 0 ++ (Mpir.lshift G gzb).1).getLast? ≠ some 0 := by
+        rw [List.getLast?_append_of_ne_nil _ hne2]
+        obtain ⟨m, hm, hle⟩ := lshift_last gzb x xs 0
+        have : (Mpir.lshift G gzb).1.getLast? = some m := by rw [hGx]; exact hm
+        rw [this]
+        have hx' : x >>> (64 - gzb) = 0 := by rw [← htop, ← hc]; exact hcy
+        have := shl_top_ne_zero x gzb hx0 hx' hb
+        intro h; injection h with h; omega
+      obtain ⟨F1, F2⟩ := Wrote.fin_full Gr hg W2 hlen hlast
+      refine ⟨_, by rw [hlen]; exact F1, by rw [hlen]; exact F2, ?_⟩
+      rw [hcy, Nat.mul_zero, Nat.add_zero] at hv
+      rw [val_append, Mpz.val_replicate_zero, List.length_replicate, B_pow, hv, Nat.pow_add]
+      ring
+    · have hcb : ((Mpir.lshift G gzb).2 != 0) = true := by simpa using hcy
+      simp only [hcb, if_true]
+      have hcy' : (Mpz.topLimb G >>> (64 - gzb) != 0) = true := by rw [← hc]; exact hcb
+      rw [hcy'] at hgs
+      simp only [if_true] at hgs
+      have hcB : (Mpir.lshift G gzb).2 < B :=
+        Nat.lt_of_lt_of_le hclt (by unfold B; exact Nat.pow_le_pow_right (by decide) (by omega))
+      have W3 := W2.append [(Mpir.lshift G gzb).2] (limb_singleton hcB) (by simp [hn]; omega)
+      simp only [List.length_append, List.length_replicate, hn] at W3
+      simp only [St.store, ptr_add_add]
+      have hlen : (List.replicate gzl 0 ++ (Mpir.lshift G gzb).1 ++ [(Mpir.lshift G gzb).2]).length = gsize := by
+        simp [hn]; omega
+      obtain ⟨F1, F2⟩ := Wrote.fin_full Gr hg W3 hlen (by simp; exact hcy)
+      refine ⟨_, by rw [hlen]; exact F1, by rw [hlen]; exact F2, ?_⟩
+      rw [List.append_assoc, val_append, val_append, Mpz.val_replicate_zero, List.length_replicate, B_pow, hn]
+      have : val [(Mpir.lshift G gzb).2] = (Mpir.lshift G gzb).2 := by simp [val]
+      rw [this, hv, Nat.pow_add]
+      ring
+
+/-! ## mpz/gcd.c: the TMP side and the general arm composed -/
+
+theorem val_take_top_zero (r : List Nat) (h : Mpz.topLimb r = 0) : val (r.take (r.length - 1)) = val r := by
+  by_cases hne : r = []
+  · subst hne; rfl
+  · have e := List.dropLast_append_getLast hne
+    have hl : r.getLast hne = 0 := by
+      have : Mpz.topLimb r = r.getLast hne := by
+        unfold Mpz.topLimb; rw [List.getLastD_eq_getLast?, List.getLast?_eq_some_getLast hne]; rfl
+      rw [← this]; exact h
+    rw [← List.dropLast_eq_take]
+    conv_rhs => rw [← e, val_append, hl]
+    simp [val]
+
+theorem odd_shift (x vx zb : Nat) (hzb : zb ≤ 63) (hodd : (x / 2 ^ zb) % 2 = 1) (hx : x = 2 ^ zb * (x / 2 ^ zb)) :
+    (x + B * vx) / 2 ^ zb % 2 = 1 ∧ x + B * vx = (x + B * vx) / 2 ^ zb * 2 ^ zb := by
+  generalize x / 2 ^ zb = o at *
+  have hB : B = 2 ^ zb * (2 * 2 ^ (63 - zb)) := by
+    unfold B; rw [← pow_succ', ← Nat.pow_add]; congr 1; omega
+  have e : x + B * vx = 2 ^ zb * (o + 2 * (2 ^ (63 - zb) * vx)) := by rw [hx, hB]; ring
+  have hd : (x + B * vx) / 2 ^ zb = o + 2 * (2 ^ (63 - zb) * vx) := by
+    rw [e]; exact Nat.mul_div_cancel_left _ (by positivity)
+  rw [hd]
+  exact ⟨by omega, by rw [e]; ring⟩
+
+theorem new_write_full (r : List Nat) (n : Nat) (h : r.length = n) : (Buf.new n).write 0 r = (⟨n, r⟩, true) := by
+  subst h; simp [Buf.write, Buf.new]
+
+/-- gcd.c:82-95: what the stripped copy holds: an odd number `u'` with `U = u' << (64 * zero_limbs + zero_bits)` -/
+theorem stripLow_spec (U : List Nat) (hU : Limbs U) (hN : Norm U) (hne : U ≠ []) :
+    ∃ zl zb blk n, stripLow U = (zl, zb, blk, n, true) ∧ zb ≤ 63 ∧ blk.alloc ≤ U.length ∧ n ≤ blk.alloc ∧
+      val U = val (blk.read 0 n).1 * 2 ^ (64 * zl + zb) ∧ val (blk.read 0 n).1 % 2 = 1 ∧
+      Limbs (blk.read 0 n).1 ∧ (blk.read 0 n).1.length ≤ n := by
+  obtain ⟨hval, hzl, hhead⟩ := Powm.strip_zero_limbs U
+  have hpos : 0 < val U := Mpz.Norm.pos hN hne
+  unfold stripLow
+  simp only []
+  generalize (U.takeWhile (· == 0)).length = zl at *
+  have hTl : Limbs (U.drop zl) := Limbs_drop hU _
+  obtain ⟨x, xs, hT⟩ : ∃ x xs, U.drop zl = x :: xs := by
+    cases hT : U.drop zl with
+    | nil => rw [hT] at hval; simp [val] at hval; omega
+    | cons x xs => exact ⟨x, xs, rfl⟩
+  have hx0 : 0 < x := Nat.pos_of_ne_zero (hhead x xs hT)
+  have hxB : x < B := hTl x (by rw [hT]; simp)
+  have hget : U.getD zl 0 = x := by
+    have : U[zl]? = some x := by
+      have := List.getElem?_drop (xs := U) (i := zl) (j := 0)
+      rw [hT] at this; simpa using this.symm
+    simp [List.getD_eq_getElem?_getD, this]
+  have hzb : Gcd.ctz x < 64 := Gcd.ctz_lt_of_lt_pow x 64 hx0 hxB
+  obtain ⟨hx2, hodd⟩ := Gcd.ctz_spec x hx0
+  have hvT : val (U.drop zl) = x + B * val xs := by rw [hT]; rfl
+  have hlen : (U.drop zl).length = U.length - zl := List.length_drop
+  rw [hget]
+  generalize Gcd.ctz x = zb at *
+  obtain ⟨ho, hmul⟩ := odd_shift x (val xs) zb (by omega) hodd hx2
+  by_cases h0 : zb = 0
+  · subst h0
+    simp only [bne_self_eq_false, Bool.false_eq_true, if_false]
+    rw [new_write_full _ _ hlen]
+    refine ⟨zl, 0, _, _, rfl, by omega, by simp, by simp, ?_, ?_, ?_, ?_⟩
+    · simp only [Buf.read, List.drop_zero, ← hlen, List.take_length]
+      rw [hval, B_pow, Nat.add_zero]; ring
+    · simp only [Buf.read, List.drop_zero, ← hlen, List.take_length]
+      rw [hvT]; simpa using ho
+    · simp only [Buf.read, List.drop_zero]; exact Limbs_take hTl _
+    · simp only [Buf.read, List.drop_zero, List.length_take]; omega
+  · have hb0 : (zb != 0) = true := by simpa using h0
+    simp only [hb0, if_true]
+    obtain ⟨hrv, hrl, hrn⟩ := Powm.rshift_val (U.drop zl) zb hTl (by omega) (by omega)
+    generalize (Mpir.rshift (U.drop zl) zb).1 = r at *
+    rw [new_write_full r _ (hrn.trans hlen)]
+    refine ⟨zl, zb, _, _, rfl, by omega, by simp, by simp, ?_, ?_, ?_, ?_⟩
+    rotate_left 2
+    · simp only [Buf.read, List.drop_zero]; exact Limbs_take hrl _
+    · simp only [Buf.read, List.drop_zero, List.length_take]; omega
+    all_goals
+      simp only [Buf.read, List.drop_zero]
+      have hv' : val (r.take (U.length - zl - if (Mpz.topLimb r == 0) = true then 1 else 0)) = val r := by
+        by_cases ht : Mpz.topLimb r = 0
+        · have : (Mpz.topLimb r == 0) = true := by simpa using ht
+          rw [this, if_pos rfl, ← hlen, ← hrn]; exact val_take_top_zero r ht
+        · have : (Mpz.topLimb r == 0) = false := by simpa using ht
+          rw [this]; simp only [Bool.false_eq_true, if_false, Nat.sub_zero]
+          rw [← hlen, ← hrn, List.take_length]
+      rw [hv', hrv, hvT]
+    · rw [hval, hvT, B_pow, Nat.pow_add]
+      conv_lhs => rw [hmul]
+      ring
+    · exact ho
+
+
+theorem natLimbs_len_le' (n k : Nat) (h : n < B ^ k) : (natLimbs n).length ≤ k := by
+  obtain ⟨hv, hl, hN⟩ := Bits.natLimbs_spec n
+  by_contra hc
+  have hne : natLimbs n ≠ [] := by intro e; rw [e] at hc; simp at hc
+  have h1 := Mpz.Norm.lower ⟨hl, hN⟩ hne
+  have h2 : B ^ k ≤ B ^ ((natLimbs n).length - 1) := Nat.pow_le_pow_right B_pos (by omega)
+  omega
+
+theorem gcd_odd_shift_le (a b x y : Nat) (hx : x % 2 = 1) (hab : a ≤ b) :
+    Nat.gcd (x * 2 ^ a) (y * 2 ^ b) = Nat.gcd x y * 2 ^ a := by
+  have e : y * 2 ^ b = (y * 2 ^ (b - a)) * 2 ^ a := by rw [Nat.mul_assoc, ← Nat.pow_add]; congr 2; omega
+  rw [e, Nat.gcd_mul_right]
+  congr 1
+  have hc2 : Nat.Coprime 2 x := by
+    unfold Nat.Coprime
+    have h1 := Nat.gcd_dvd_left 2 x
+    have h2 := Nat.gcd_dvd_right 2 x
+    have h3 : Nat.gcd 2 x ≤ 2 := Nat.le_of_dvd (by decide) h1
+    have h4 : 0 < Nat.gcd 2 x := Nat.gcd_pos_of_pos_left _ (by decide)
+    rcases Nat.lt_or_ge (Nat.gcd 2 x) 2 with h | h
+    · omega
+    · have h5 : Nat.gcd 2 x = 2 := by omega
+      rw [h5] at h2; omega
+  have hc : Nat.Coprime (2 ^ (b - a)) x := Nat.Coprime.pow_left _ hc2
+  exact Nat.Coprime.gcd_mul_right_cancel_right y hc
+
+theorem gcd_odd_shift (a b x y : Nat) (hx : x % 2 = 1) (hy : y % 2 = 1) :
+    Nat.gcd (x * 2 ^ a) (y * 2 ^ b) = Nat.gcd x y * 2 ^ (min a b) := by
+  rcases Nat.le_total a b with h | h
+  · rw [Nat.min_eq_left h]; exact gcd_odd_shift_le a b x y hx h
+  · rw [Nat.min_eq_right h, Nat.gcd_comm, Nat.gcd_comm x y]; exact gcd_odd_shift_le b a y x hy h
+
+
+/-- gcd.c:79-155, the general arm composed: TMP copies, mpn_gcd (value = gcd, by contract), the re-shift into g -/
+theorem gcdGeneral_refines (s : St) (g u v : Nat) (hs : s.ok = true) (hg : OWF (s.h g)) (hu : OWF (s.h u)) (hv : OWF (s.h v))
+    (hu2 : 2 ≤ (s.h u).size.natAbs) (hv2 : 2 ≤ (s.h v).size.natAbs) :
+    ∃ R, Refines s (mpz_gcd s g u v) g ⟨max (s.h g).buf.alloc R.length, (R.length : Nat), R⟩ ∧
+      Mpz.WF ⟨max (s.h g).buf.alloc R.length, (R.length : Nat), R⟩ ∧
+      val R = Nat.gcd (val (view (s.h u)).d) (val (view (s.h v)).d) := by
+  have hU : s.rd (s.PTR u) (s.h u).size.natAbs = (view (s.h u)).d := by rw [rd_PTR]; rfl
+  have hV : s.rd (s.PTR v) (s.h v).size.natAbs = (view (s.h v)).d := by rw [rd_PTR]; rfl
+  have hUok : s.rdOk (s.PTR u) (s.h u).size.natAbs = true := by rw [rdOk_PTR]; simpa using view_fit hu
+  have hVok : s.rdOk (s.PTR v) (s.h v).size.natAbs = true := by rw [rdOk_PTR]; simpa using view_fit hv
+  have hne : ∀ {x : Nat}, OWF (s.h x) → 2 ≤ (s.h x).size.natAbs → (view (s.h x)).d ≠ [] := by
+    intro x hx h2 e; have := view_d_length hx; rw [e] at this; simp at this; omega
+  obtain ⟨uzl, uzb, ub, un, eU, hub, hua, hun, hUv, hUo, hUl, hUn⟩ :=
+    stripLow_spec _ (view_limbs hu) ⟨view_limbs hu, hu.2.2.2.2.2⟩ (hne hu hu2)
+  obtain ⟨vzl, vzb, vb, vn, eV, hvb, hva, hvn, hVv, hVo, hVl, hVn⟩ :=
+    stripLow_spec _ (view_limbs hv) ⟨view_limbs hv, hv.2.2.2.2.2⟩ (hne hv hv2)
+  have c1 : ((s.h u).size.natAbs == 0) = false := by simp; omega
+  have c2 : ((s.h v).size.natAbs == 0) = false := by simp; omega
+  have c3 : ((s.h u).size.natAbs == 1) = false := by simp; omega
+  have c4 : ((s.h v).size.natAbs == 1) = false := by simp; omega
+  unfold mpz_gcd gcd_
+  simp only [St.ABSIZ, c1, c2, c3, c4, Bool.false_eq_true, if_false]
+  unfold gcdGeneral
+  simp only [hU, hV, hUok, hVok, eU, eV, Bool.and_self, chk_true]
+  generalize hgz : (if uzl > vzl then (vzl, vzb) else if uzl < vzl then (uzl, uzb) else (uzl, min uzb vzb)) = p
+  have hp : p.2 ≤ 63 ∧ 64 * p.1 + p.2 = min (64 * uzl + uzb) (64 * vzl + vzb) := by
+    rw [← hgz]; split_ifs <;> simp only [] <;> omega
+  obtain ⟨gzl, gzb⟩ := p
+  simp only [] at hp ⊢
+  generalize hu' : val (ub.read 0 un).1 = u' at *
+  generalize hv' : val (vb.read 0 vn).1 = v' at *
+  obtain ⟨gv, gl, gN⟩ := Bits.natLimbs_spec (Nat.gcd u' v')
+  have hv0 : 0 < v' := by omega
+  have hgpos : 0 < Nat.gcd u' v' := Nat.gcd_pos_of_pos_right _ hv0
+  have gne : natLimbs (Nat.gcd u' v') ≠ [] := by
+    intro e; rw [e] at gv; simp [val] at gv; omega
+  have hfit : (natLimbs (Nat.gcd u' v')).length ≤ vb.alloc := by
+    apply natLimbs_len_le'
+    have h1 : Nat.gcd u' v' ≤ v' := Nat.gcd_le_right _ hv0
+    have h2 : v' < B ^ (vb.read 0 vn).1.length := by rw [← hv']; exact val_lt _ hVl
+    have h3 : B ^ (vb.read 0 vn).1.length ≤ B ^ vb.alloc := Nat.pow_le_pow_right B_pos (by omega)
+    omega
+  simp only [hfit, decide_true, chk_true]
+  obtain ⟨R, r1, r2, r3⟩ := gcdTail_refines s g (natLimbs (Nat.gcd u' v')) gzl gzb hs hg gl gN gne hp.1
+  refine ⟨R, r1, r2, ?_⟩
+  rw [r3, gv, hp.2, ← gcd_odd_shift _ _ _ _ hUo hVo, ← hUv, ← hVv]
+
+/-! ## mpz/lcm.c, the general arm: the temporary g is never reallocated; mpz/divexact.c on it -/
+
+/-- the block of `x` is still the same block (same generation, same length), or it was replaced by a longer one -/
+def GenOk (s s' : St) (x : Nat) : Prop :=
+  ((s'.h x).gen = (s.h x).gen ∧ (s'.h x).buf.alloc = (s.h x).buf.alloc) ∨ (s.h x).buf.alloc < (s'.h x).buf.alloc
+
+theorem MPZ_REALLOC_genOk (s : St) (w n x : Nat) : GenOk s (MPZ_REALLOC s w n) x := by
+  unfold MPZ_REALLOC GenOk St.ALLOC
+  split
+  · rename_i h
+    by_cases hx : x = w
+    · subst hx; right; simp [_mpz_realloc]; omega
+    · left; simp [_mpz_realloc, upd, hx]
+  · left; exact ⟨rfl, rfl⟩
+
+theorem gcdTail_genOk (s : St) (g : Nat) (G : List Nat) (gzl gzb x : Nat) : GenOk s (gcdTail 0 false s g G gzl gzb) x := by
+  have key : ∀ n, GenOk s (MPZ_REALLOC s g n) x := fun n => MPZ_REALLOC_genOk s g n x
+  unfold gcdTail
+  simp only [Nat.sub_zero, Bool.false_or, MPN_ZERO, St.store]
+  split
+  · split
+    · have := key (G.length + gzl + if (Mpz.topLimb G >>> (64 - gzb) != 0) = true then 1 else 0)
+      unfold GenOk at this ⊢; simpa using this
+    · have := key (G.length + gzl + if (Mpz.topLimb G >>> (64 - gzb) != 0) = true then 1 else 0)
+      unfold GenOk at this ⊢; simpa using this
+  · have := key (G.length + gzl)
+    unfold GenOk at this ⊢; simpa using this
+
+/-- in the general arm mpz_gcd is `gcdTail` on a state with the same heap -/
+theorem gcd_general_shape (s : St) (g u v : Nat) (hu2 : 2 ≤ (s.h u).size.natAbs) (hv2 : 2 ≤ (s.h v).size.natAbs) :
+    ∃ c G gzl gzb, mpz_gcd s g u v = gcdTail 0 false (s.chk c) g G gzl gzb := by
+  have c1 : ((s.h u).size.natAbs == 0) = false := by simp; omega
+  have c2 : ((s.h v).size.natAbs == 0) = false := by simp; omega
+  have c3 : ((s.h u).size.natAbs == 1) = false := by simp; omega
+  have c4 : ((s.h v).size.natAbs == 1) = false := by simp; omega
+  unfold mpz_gcd gcd_
+  simp only [St.ABSIZ, c1, c2, c3, c4, Bool.false_eq_true, if_false]
+  unfold gcdGeneral
+  simp only []
+  generalize stripLow (s.rd (s.PTR u) (s.h u).size.natAbs) = a
+  generalize stripLow (s.rd (s.PTR v) (s.h v).size.natAbs) = b
+  obtain ⟨a1, a2, a3, a4, a5⟩ := a
+  obtain ⟨b1, b2, b3, b4, b5⟩ := b
+  simp only []
+  generalize (if a1 > b1 then (b1, b2) else if a1 < b1 then (a1, a2) else (a1, min a2 b2)) = p
+  obtain ⟨p1, p2⟩ := p
+  simp only []
+  have chk3 : ∀ (s : St) (a b c : Bool), ((s.chk a).chk b).chk c = s.chk (a && b && c) := by
+    intro s a b c; cases s; simp [St.chk, Bool.and_assoc]
+  rw [chk3]
+  exact ⟨_, _, _, _, rfl⟩
+
+theorem mpz_gcd_genOk (s : St) (g u v x : Nat) (hu2 : 2 ≤ (s.h u).size.natAbs) (hv2 : 2 ≤ (s.h v).size.natAbs) :
+    GenOk s (mpz_gcd s g u v) x := by
+  obtain ⟨c, G, gzl, gzb, e⟩ := gcd_general_shape s g u v hu2 hv2
+  rw [e]
+  exact gcdTail_genOk (s.chk c) g G gzl gzb x
+
+
+theorem toInt_natAbs' (m : Mpz.Mpz) : (Mpz.toInt m).natAbs = val m.d := by
+  unfold Mpz.toInt; split <;> simp
+
+theorem MPZ_REALLOC_noop' (s : St) (w n : Nat) (h : n ≤ (s.h w).buf.alloc) : MPZ_REALLOC s w n = s := by
+  unfold MPZ_REALLOC St.ALLOC; rw [if_neg (by omega)]
+
+/-- mpz_divexact (q, num, q) on a quotient variable that must not be reallocated (mpz_lcm's temporary g) -/
+theorem divexact_tmp (s : St) (q num : Nat) (hs : s.ok = true) (hq : OWF (s.h q)) (hn : OWF (s.h num))
+    (hle : (s.h q).size.natAbs ≤ (s.h num).size.natAbs) (hd1 : 1 ≤ (s.h q).size.natAbs)
+    (hfit : (s.h num).size.natAbs + 1 - (s.h q).size.natAbs ≤ (s.h q).buf.alloc) :
+    (divexact s q num q).ok = true ∧ OWF ((divexact s q num q).h q) ∧ (∀ x, x ≠ q → (divexact s q num q).h x = s.h x) ∧
+    ((divexact s q num q).h q).gen = (s.h q).gen ∧ ((divexact s q num q).h q).buf.alloc = (s.h q).buf.alloc ∧
+    (Mpz.toInt (view ((divexact s q num q).h q))).natAbs = val (view (s.h num)).d / val (view (s.h q)).d := by
+  have hN : s.rd (s.PTR num) (s.h num).size.natAbs = (view (s.h num)).d := by rw [rd_PTR]; rfl
+  have hD : s.rd (s.PTR q) (s.h q).size.natAbs = (view (s.h q)).d := by rw [rd_PTR]; rfl
+  have hNok : s.rdOk (s.PTR num) (s.h num).size.natAbs = true := by rw [rdOk_PTR]; simpa using view_fit hn
+  have hDok : s.rdOk (s.PTR q) (s.h q).size.natAbs = true := by rw [rdOk_PTR]; simpa using view_fit hq
+  unfold divexact
+  simp only [St.ABSIZ]
+  have hlt : ¬ (s.h num).size.natAbs < (s.h q).size.natAbs := by omega
+  rw [MPZ_REALLOC_noop' s q _ hfit]
+  simp only [hlt, ↓reduceIte]
+  simp only [beq_self_eq_true, Bool.or_true, if_true, hN, hD, hNok, hDok, Bool.and_self, chk_true]
+  generalize hQ : toLimbs ((s.h num).size.natAbs - (s.h q).size.natAbs + 1) (val (view (s.h num)).d / val (view (s.h q)).d) = Q
+  have hQl : Q.length = (s.h num).size.natAbs - (s.h q).size.natAbs + 1 := by rw [← hQ]; exact AliasMem.toLimbs_length _ _
+  have hQL : Limbs Q := by rw [← hQ]; exact AliasMem.Limbs_toLimbs _ _
+  rw [new_write_full Q _ hQl]
+  simp only [chk_true, Buf.read, List.drop_zero, ← hQl, List.take_length, take_normalize_length]
+  generalize Mpz.diffSign (s.SIZ num) (s.SIZ q) = neg
+  have hNl := Mpz.Norm_normalize hQL
+  have hnle := Mpz.normalize_length_le Q
+  have hqa : Q.length ≤ (s.h q).buf.alloc := by rw [hQl]; omega
+  have hs2 : (s.setSize q (sgn neg (normalize Q).length)).ok = true := by simpa using hs
+  have hb2 : BWF ((s.setSize q (sgn neg (normalize Q).length)).h q).buf := by simpa using hq.1
+  have W := Wrote.fresh (s.setSize q (sgn neg (normalize Q).length)) q (normalize Q) true hs2 rfl hb2 hNl.1
+    (by simp only [setSize_buf]; omega)
+  simp only [chk_true] at W
+  have R := W.refines (sgn neg (normalize Q).length) (by simp) (by rw [natAbs_sgn])
+  rw [natAbs_sgn, List.take_length] at R
+  have ha : 1 ≤ (s.h q).buf.alloc := by have := hq.2.1; simpa [view] using this
+  refine ⟨W.ok, ⟨W.bwf, ?_⟩, fun x hx => (W.frame x hx).trans (setSize_other _ _ _ hx), ?_, ?_, ?_⟩
+  · rw [R.view]
+    exact ⟨by simpa using ha, by rw [natAbs_sgn]; simp only [setSize_buf]; omega, by rw [natAbs_sgn], hNl.1, hNl.2⟩
+  · rw [W.gen]; simp
+  · rw [W.alloc]; simp
+  · rw [R.view, toInt_natAbs', Mpz.val_normalize, ← hQ, AliasMem.val_toLimbs]
+    apply Nat.mod_eq_of_lt
+    have hNlt : val (view (s.h num)).d < B ^ (s.h num).size.natAbs := by
+      have := val_lt _ (view_limbs hn); rwa [view_d_length hn] at this
+    have hqne : (view (s.h q)).d ≠ [] := by
+      intro e; have := view_d_length hq; rw [e] at this; simp at this; omega
+    have hDge : B ^ ((s.h q).size.natAbs - 1) ≤ val (view (s.h q)).d := by
+      have := Mpz.Norm.lower ⟨view_limbs hq, hq.2.2.2.2.2⟩ hqne; rwa [view_d_length hq] at this
+    apply Nat.div_lt_of_lt_mul
+    calc val (view (s.h num)).d < B ^ (s.h num).size.natAbs := hNlt
+      _ = B ^ ((s.h q).size.natAbs - 1) * B ^ ((s.h num).size.natAbs - (s.h q).size.natAbs + 1) := by
+          rw [← Nat.pow_add]; congr 1; omega
+      _ ≤ val (view (s.h q)).d * B ^ ((s.h num).size.natAbs - (s.h q).size.natAbs + 1) := Nat.mul_le_mul_right _ hDge
+
 
 end Mpir.AllocSafe5
